@@ -30,9 +30,11 @@ def parseOp : String → Option OpSym
 structure Opd where
   d : Desc
   vals : Array Int
+  /-- expanded mask bits (row-major over the leading shape of an object / the full shape of a MaskedArray) -/
+  mask : Option MaskRep := none
 
 def parseOpd : Sx → Option Opd
-  | .list [.atom src, .atom cls, .atom kind, sh, nu, de, vs, _mask, un] => do
+  | .list [.atom src, .atom cls, .atom kind, sh, nu, de, vs, msk, un] => do
     let src ← parseSrc src
     let cls ← parseCls cls
     let kind ← parseKind kind
@@ -44,7 +46,7 @@ def parseOpd : Sx → Option Opd
       | .atom "-" => some none
       | x => (x.ints?).map some
     some ⟨Desc.constructed { src := src, cls := cls, kind := kind, shape := shape, numer := numer, denom := denom,
-                             units := units }, vals.toArray⟩
+                             units := units }, vals.toArray, parseMask msk⟩
   | _ => none
 
 def Opd.arr (o : Opd) : Arr Int := Arr.ofFlat o.d.full o.vals
@@ -133,7 +135,13 @@ def handle : List Sx → Sx
   | [.atom "pow", a, b, bl] =>
     match parseOpd a, parseOpd b with
     | some a, some b =>
-      let negInt := b.d.kind == .int && b.vals.any (· < 0)
+      -- "only the exponents that are in use decide this": a negative exponent underneath the mask does not count
+      let unmasked (i : Nat) : Bool := match b.mask with
+        | some (.scalar m) => !m
+        | some (.array bits) => !(bits[i]?.getD false)
+        | none => true
+      let negInt := b.d.kind == .int &&
+        (List.range b.vals.size).any fun i => b.vals[i]! < 0 && unmasked i
       let blank := parseBlank bl
       metaOnly (powDispatch a.d b.d negInt) (blank.all id)
     | _, _ => err "operand"
